@@ -1109,6 +1109,15 @@ def bi_deque(I, args, kw):
     return v
 
 
+def bi_ordereddict(I, args, kw):
+    """collections.OrderedDict() without arguments: an empty dict literal; it takes its typed insertion-ordered
+    shape (empty_map of `OrderedDict[K, V]`) when stored into a field / local declared with that type.  An
+    order-dependent method on a value that was never given such a type stays `unsupported` (dictrec_method)."""
+    if args or kw:
+        raise Unsupported("OrderedDict(<initial content>)")
+    return VDictRec({})
+
+
 def bi_sorted(I, args, kw):
     v = I.force(args[0])
     key = kw.get("key")
@@ -1275,7 +1284,18 @@ def gh_lemma_pigeonhole(I, args, kw):
     return VNone()
 
 
+def sp_opos(I, args, kw):
+    """opos(d, k) (spec only): position of key k in the insertion order of the ordered map d, i.e. the index i
+    with list(d.keys())[i] == k.  Defined for k in d (the map's type invariant `assume_wf_order` gives
+    0 <= opos < len(d) and keys[opos] == k then); an unconstrained integer otherwise."""
+    m, k = args
+    if not isinstance(m, VMap) or m.order is None or getattr(m, "pos", None) is None:
+        raise Unsupported("opos of a value that is not an insertion-ordered map")
+    return VInt(m.pos(unwrap(k, m.kt)))
+
+
 BUILTIN_FUNCS = {
+    "opos": sp_opos,
     "lemma_pigeonhole": gh_lemma_pigeonhole, "int_parses": sp_int_parses, "int_value": sp_int_value,
     "len": bi_len, "int": bi_int, "float": bi_float, "bool": bi_bool, "str": bi_str, "abs": bi_abs,
     "min": bi_min, "max": bi_max, "isinstance": bi_isinstance, "hasattr": bi_hasattr, "getattr": bi_getattr,
@@ -1286,7 +1306,8 @@ BUILTIN_FUNCS = {
     "deque": bi_deque, "OrderedDict": None, "open": bi_open, "fs_key": sp_fs_key,
 }
 BUILTIN_TYPES = {"int": bi_int, "float": bi_float, "bool": bi_bool, "str": bi_str, "list": bi_list,
-                 "tuple": bi_tuple, "dict": bi_dict, "set": bi_set, "object": bi_object, "deque": bi_deque}
+                 "tuple": bi_tuple, "dict": bi_dict, "set": bi_set, "object": bi_object, "deque": bi_deque,
+                 "OrderedDict": bi_ordereddict}
 TYPE_NAMES = {"int", "float", "bool", "str", "list", "tuple", "dict", "set", "object", "NoneType", "bytes",
               "Mapping", "MutableMapping", "Sequence", "deque", "OrderedDict", "frozenset"}
 
